@@ -46,7 +46,7 @@ def main():
             if pr.returncode:
                 lines = [l for l in pr.stdout.splitlines() if re.search(r"VIOLATION|UNDECIDED|CHECKER|failed obligation|outside|undecided", l)]
                 print(f"--- {os.path.basename(d)} {p} exit {pr.returncode}")
-                print("\n".join(l[:400] for l in lines[:12]))
+                print("\n".join(l[:400] for l in lines[:12])); print("\n".join(l[:300] for l in pr.stdout.splitlines() if "no longer generated" in l))
                 # keep the replay files' concrete part short
                 for l in lines:
                     m = re.search(r"replay=(\S+)", l)
